@@ -70,7 +70,8 @@ TOKEN_CLASSES = [
     ("negative", ["-1", "-2"]),
     ("leading-zero", ["01", "00", "001"]),
     ("sign", ["+1", "+0", "-0"]),
-    ("whitespace", [" 1", " 0", "1 ", "\t1"]),
+    ("whitespace", [" 1", " 0", "1 ", "\t1", "1\n", "0\n", "\n1", "1\r", "0\x0b"]),
+    ("mixed-digits", ["1\u0662", "2\uff15", "1\u0660", "0\u0661", "10\u0663"]),
     ("underscore", ["1_0", "0_1", "0_0"]),
     ("decimal-point", ["1.0", "0.0", "1e0"]),
     ("non-ascii-digit", ["٣", "１", "١", "٠", "０"]),
@@ -84,7 +85,7 @@ REPS = dict(TOKEN_CLASSES)
 ARRAY_TOKENS = [t for c, ts in TOKEN_CLASSES for t in ts]
 STRING_TOKENS = ARRAY_TOKENS + ["0", "1", "2", "~0", "~1", "%", "/"]
 SCALAR_TOKENS = ["0", "1", "-1", "", "a", "-", "enum", "~0", "%"]
-CANONICAL = re.compile(r"^(0|[1-9][0-9]*)$")
+CANONICAL = re.compile(r"\A(0|[1-9][0-9]*)\Z")
 
 SPELLINGS = ("min", "full", "total", "enclead")
 HEX = "0123456789abcdef"
